@@ -161,7 +161,9 @@ def bodies(tier, sim="PureFock"):
     measurement, so a body with M before the end is a naturally failing program there."""
     out = [[]]
     if tier == "quick":
-        alpha = ["PSs", "MZ", "Kc", "Iall", "M"]
+        if sim == "Fock":  # no mid-circuit measurement there: only the four RICH programs in the quick tier
+            return [list(b) for b in RICH]
+        alpha = ["PSs", "MZ", "Iall", "M"]
         for n in (1, 2):
             out += [list(t) for t in itertools.product(alpha, repeat=n)]
     else:
@@ -184,7 +186,7 @@ def bodies(tier, sim="PureFock"):
 def line_bodies(tier, sim="PureFock"):
     """Programs under the line-level ("every crash point") injector."""
     if tier == "quick":
-        return {"PureFock": [RICH[0]], "Gaussian": [RICH[1]]}.get(sim, [])
+        return {"PureFock": [RICH[0]]}.get(sim, [])
     alpha = ["BS", "PSs", "MZ", "Kc", "PSl", "Iall", "Iarr", "M"]
     out = [[]] + [[s] for s in alpha]
     out += [["M", s] for s in alpha if s != "M"] + [[s, "M"] for s in alpha if s != "M"]
